@@ -32,7 +32,7 @@ from .misc import BytesOrFilePath, FilePath, OptionsParser
 from .misc import open_file, read_file, match_base64, wrap_base64, parse_time
 from .packet import String, UInt32, PacketDecodeError, SSHPacket
 from .pattern import WildcardPatternList
-from .public_key import CERT_TYPE_ANY, KeyImportError, KeyPairListArg
+from .public_key import CERT_TYPE_USER, KeyImportError, KeyPairListArg
 from .public_key import SSHKey, SSHOpenSSHCertificate
 from .public_key import decode_ssh_public_key, decode_ssh_certificate
 from .public_key import import_public_key, load_keypairs
@@ -421,7 +421,7 @@ def validate_sshsig(data: BytesOrFilePath, sig: BytesOrFilePath,
 
         if result:
             try:
-                cert.validate(CERT_TYPE_ANY, principal)
+                cert.validate(CERT_TYPE_USER, principal)
             except ValueError:
                 return False
 
